@@ -7,7 +7,7 @@ from props import _dhelp as H
 from common import bits, unbits, fb, close, canon_hash
 
 ID = "C10"
-SECTIONS = ["ops"]          # the downstream formula k*a+c is propagated through the generated tables
+SECTIONS = ["ops", "stats"]   # downstream formula k*a+c: generated operator tables; statistics: Generated/Stats.lean
 LEAN_MODULES = ["QExPy.Props.C10"]
 THEOREMS = ["QExPy.C10_mean_def",
             "QExPy.C10_var_def",
